@@ -35,12 +35,13 @@ type Config struct {
 	SolverTimeoutMs int
 	Workers         int
 	Solver          SolverKind
+	Logic           string // SMT-LIB logic announced to the solver (QF_UFBV unless floats are involved)
 }
 
 func defaultConfig() Config {
 	return Config{Params: map[string]int64{}, Unwind: 64, MaxSteps: 2000000, MaxDepth: 200, MaxAlloc: 4096,
 		MaxConcretize: 64, MapOrder: "two", Realloc: "double", Preempt: 2, MaxPaths: 2000000, TimeBudgetS: 600,
-		SolverTimeoutMs: 10000, Workers: 16, Solver: Z3}
+		SolverTimeoutMs: 10000, Workers: 16, Solver: Z3, Logic: "QF_UFBV"}
 }
 
 type Engine struct {
@@ -149,18 +150,22 @@ type Worker struct {
 func NewWorker(e *Engine, id int) (*Worker, error) {
 	tt := NewTermTable()
 	w := &Worker{id: id, eng: e, tt: tt, pr: NewPrinter(tt), fninfo: map[*ssa.Function]*fnInfo{}, intrCache: map[*ssa.Function]intrFn{}}
-	s, err := StartSolver(e.cfg.Solver, e.cfg.SolverTimeoutMs)
+	s, err := StartSolver(e.cfg.Solver, e.cfg.SolverTimeoutMs, e.cfg.Logic)
 	if err != nil {
 		return nil, err
 	}
 	w.sol = s
+	if id == 0 && os.Getenv("SYMGO_LOG") != "" {
+		solverLogFile, _ = os.Create(os.Getenv("SYMGO_LOG"))
+		s.logAll = true
+	}
 	return w, nil
 }
 
 func (w *Worker) restartSolver() {
 	q, tm := w.sol.Queries, w.sol.Time
 	w.sol.Close()
-	s, err := StartSolver(w.eng.cfg.Solver, w.eng.cfg.SolverTimeoutMs)
+	s, err := StartSolver(w.eng.cfg.Solver, w.eng.cfg.SolverTimeoutMs, w.eng.cfg.Logic)
 	if err != nil {
 		panic(err)
 	}
@@ -177,7 +182,7 @@ func (w *Worker) RunPath(entry *ssa.Function, prefix []Dec) (r *Run) {
 	r = &Run{w: w, eng: w.eng, tt: w.tt, prefix: prefix, atoms: map[int]bool{}, inputOcc: map[string]int{},
 		chooses: map[string]int64{}, covers: map[string]bool{}, globals: map[*ssa.Global]*Slot{},
 		pools: map[*Slot]*poolModel{}, cuts: map[string]bool{}, mutexes: map[*Slot]*mutexState{},
-		timerBySlot: map[*Slot]*timerEnv{}}
+		timerBySlot: map[*Slot]*timerEnv{}, ordS: newOrdGraph(true), ordU: newOrdGraph(false)}
 	w.pr.Reset()
 	w.sol.Push()
 	defer func() {
@@ -243,6 +248,7 @@ type Explorer struct {
 	qVC      int64
 	vcRew    int64
 	vcSol    int64
+	vcInh    int64
 	fnSteps  map[string]int64
 	solverT  time.Duration
 	solverQ  int
@@ -298,6 +304,7 @@ func (ex *Explorer) record(r *Run) {
 	ex.qVC += int64(r.qVC)
 	ex.vcRew += int64(r.vcRewrite)
 	ex.vcSol += int64(r.vcSolver)
+	ex.vcInh += int64(r.vcInherited)
 	for c := range r.covers {
 		ex.covers[c]++
 	}
